@@ -32,6 +32,11 @@ class Ctx:
         self.scratch = os.path.join(SCRATCH, f"{pid}-{os.getpid()}")
         shutil.rmtree(self.scratch, ignore_errors=True)
         os.makedirs(self.scratch, exist_ok=True)
+        # temporary files of every process a check starts (garden writes its built-in files to $TMPDIR/garden-lsp-<pid> and does not
+        # remove them when it is killed or leaves through `exit`) stay inside the scratch directory, which is removed at the end
+        tmp = os.path.join(self.scratch, "tmp")
+        os.makedirs(tmp, exist_ok=True)
+        os.environ["TMPDIR"] = tmp
         self._pool = None
         self.known = [f for f in load_known()["findings"] if f["property"] == pid]
         self.known_hit = {}
